@@ -1,94 +1,300 @@
-/-! probe: mempool.MemPool over an abstract heap; sync.Pool choice and append growth are inputs -/
+/-! M10: the three `mempool` allocators over an abstract heap.
+
+* a heap is a list of *regions* (one per Go backing array, never reused: ids are positions);
+  a region has a capacity and `cap` bytes of content (bytes beyond a handle's length are the
+  stale bytes a later `Realloc`/reslice exposes) and a ghost `owner` (who may touch it);
+* a *handle* is what the client holds: `(region, len)`; the table `live` maps the client's names
+  to handles;
+* `sync.Pool` is a bag of `(tag, class, region)` entries; what `Get` returns is an **input**
+  (`Choice.fresh` = the pool's `New`, `Choice.reuse tag` = a pooled entry; entries may stay in the
+  bag forever = silently dropped by the GC);
+* Go's `append` growth is an **input** too (`grow` = capacity of the new backing array, which the
+  model only requires to be large enough).
+
+Every Go function is mirrored paragraph by paragraph:
+`MemPool.{Malloc,Realloc,Append,AppendString,Free}` (mempool.go),
+`AlignedAllocator.{Malloc,Realloc,Append,AppendString,Free}` (aligned_allocator.go),
+`stdAllocator.{…}` (std_allocator.go).  `AppendString` is `Append` on the string's bytes.
+
+The `owner` field is ghost state: no function reads it; it records which client handle (or which
+pool entry) a backing array currently belongs to and is what the disjointness and frame theorems
+are stated with. -/
 namespace Alloc
 
 abbrev Bytes := List UInt8
 
+inductive Owner | none | live (h : Nat) | pooled (tag cls : Nat)
+  deriving Repr, DecidableEq
+
 structure Region where
-  cap : Nat
-  bytes : Bytes          -- length = cap (content beyond a handle's len is "stale")
-  deriving Repr
+  cap   : Nat
+  bytes : Bytes          -- length = cap (invariant)
+  owner : Owner := .none -- ghost
+  deriving Repr, DecidableEq
 
 structure Handle where
   rid : Nat
   len : Nat
   deriving Repr, DecidableEq
 
-structure Cfg where
-  bufSize : Nat
-  freeSize : Nat
+inductive Kind | pool | aligned | std
+  deriving Repr, DecidableEq
 
-structure Heap where
+/-- static configuration: which allocator, and `MemPool`'s two sizes (after `New`'s normalisation) -/
+structure Cfg where
+  kind     : Kind
+  bufSize  : Nat := 64
+  freeSize : Nat := 65536
+
+/-- one entry of a `sync.Pool` -/
+structure PEnt where
+  tag : Nat        -- name given by the environment when the buffer was put
+  cls : Nat        -- which pool (size class of the aligned allocator; 0 for MemPool)
+  rid : Nat
+  deriving Repr, DecidableEq
+
+structure St where
   regions : List Region := []
-  pool : List (String × Nat) := []      -- (name of the freed handle, region id)
+  pool    : List PEnt := []
+  live    : List (Nat × Handle) := []       -- client's handle name ↦ handle
+  deriving Repr, DecidableEq
+
+inductive Choice | fresh | reuse (tag : Nat)
   deriving Repr
 
-inductive Choice | fresh | reuse (name : String) deriving Repr
+/-- `mempool.New(bufSize, freeSize)`: non-positive sizes take the defaults, `freeSize ≥ bufSize` -/
+def newPoolCfg (bufSize freeSize : Nat) : Cfg :=
+  let b := if bufSize = 0 then 64 else bufSize
+  let f := if freeSize = 0 then 64 * 1024 else freeSize
+  { kind := .pool, bufSize := b, freeSize := if f < b then b else f }
 
-def Heap.newRegion (h : Heap) (cap : Nat) (bytes : Bytes) : Heap × Nat :=
-  let b := (bytes ++ List.replicate cap 0).take cap
-  ({ h with regions := h.regions ++ [⟨cap, b⟩] }, h.regions.length)
+inductive Err | bad | panic
+  deriving Repr, DecidableEq
 
-def Heap.region (h : Heap) (rid : Nat) : Region := h.regions.getD rid ⟨0, []⟩
-def Heap.setBytes (h : Heap) (rid : Nat) (b : Bytes) : Heap :=
-  { h with regions := h.regions.set rid { h.region rid with bytes := b } }
+def zeros (n : Nat) : Bytes := List.replicate n 0
 
-def Heap.read (h : Heap) (x : Handle) : Bytes := (h.region x.rid).bytes.take x.len
+/-! ### heap primitives -/
 
-/-- pool.Get(): returns a region id (fresh `New()` or a pooled one) -/
-def poolGet (g : Cfg) (h : Heap) : Choice → Option (Heap × Nat)
-  | .fresh => some (h.newRegion g.bufSize [])
-  | .reuse name =>
-    match h.pool.find? (·.1 == name) with
-    | some (_, rid) => some ({ h with pool := h.pool.filter (·.1 != name) }, rid)
-    | none => none                                        -- the impl handed out memory that is not in the pool
+def St.region (s : St) (rid : Nat) : Region := s.regions.getD rid ⟨0, [], .none⟩
 
-/-- grow region `rid` to at least `size` the way `append(s[:n], make([]byte, size-n)...)` does -/
-def growTo (h : Heap) (rid size growCap : Nat) : Option (Heap × Nat) :=
-  let r := h.region rid
-  if r.cap ≥ size then some (h, rid)
-  else if growCap < size then none
-  else some (h.newRegion growCap (r.bytes ++ List.replicate (size - r.cap) 0))
+/-- replace region `rid` by `f` of it -/
+def St.modify (s : St) (rid : Nat) (f : Region → Region) : St :=
+  { s with regions := s.regions.set rid (f (s.region rid)) }
 
-def malloc (g : Cfg) (h : Heap) (size : Nat) (c : Choice) (growCap : Nat) : Option (Heap × Handle) :=
+/-- a new backing array of capacity `cap` whose first bytes are `init`, the rest zero -/
+def St.alloc (s : St) (cap : Nat) (init : Bytes) : St × Nat :=
+  ({ s with regions := s.regions ++ [⟨cap, (init ++ zeros cap).take cap, .none⟩] }, s.regions.length)
+
+def overwrite (b : Bytes) (off : Nat) (data : Bytes) : Bytes :=
+  b.take off ++ data ++ b.drop (off + data.length)
+
+/-- overwrite `data.length` bytes of region `rid` starting at `off` (a Go `copy` / in-place append) -/
+def St.write (s : St) (rid off : Nat) (data : Bytes) : St :=
+  s.modify rid fun r => { r with bytes := overwrite r.bytes off data }
+
+/-- ghost: record who owns region `rid` -/
+def St.own (s : St) (rid : Nat) (o : Owner) : St := s.modify rid fun r => { r with owner := o }
+
+def St.lookup (s : St) (h : Nat) : Option Handle := (s.live.find? (·.1 == h)).map (·.2)
+def St.remove (s : St) (h : Nat) : St := { s with live := s.live.filter (·.1 != h) }
+def St.bind (s : St) (h : Nat) (x : Handle) : St :=
+  { s.own x.rid (.live h) with live := (h, x) :: s.live.filter (·.1 != h) }
+
+/-- the client's view of a handle: the first `len` bytes of its region -/
+def St.read (s : St) (h : Nat) : Option Bytes :=
+  (s.lookup h).map fun x => (s.region x.rid).bytes.take x.len
+
+def PEnt.is (tag cls : Nat) (e : PEnt) : Bool := e.tag == tag && e.cls == cls
+
+/-- `pool.Get()` of pool `cls` whose `New` makes `newCap` zero bytes -/
+def poolGet (s : St) (cls newCap : Nat) : Choice → Except Err (St × Nat)
+  | .fresh => .ok (s.alloc newCap [])
+  | .reuse tag =>
+    match s.pool.find? (PEnt.is tag cls) with
+    | some e => .ok (({ s with pool := s.pool.filter (fun e => !PEnt.is tag cls e) } : St).own e.rid .none, e.rid)
+    | none => .error .bad            -- the implementation handed out memory that is not in this pool
+
+/-- `pool.Put` -/
+def poolPut (s : St) (cls tag rid : Nat) : St :=
+  { s.own rid (.pooled tag cls) with pool := ⟨tag, cls, rid⟩ :: s.pool }
+
+/-- Go `append(buf[:keep], more...)` on region `rid`: in place when the capacity suffices, else a new
+    backing array of capacity `grow` (input) holding `buf[:keep] ++ more`, zero beyond -/
+def goAppend (s : St) (rid keep : Nat) (more : Bytes) (grow : Nat) : Except Err (St × Nat) :=
+  let r := s.region rid
+  if keep + more.length ≤ r.cap then .ok (s.write rid keep more, rid)
+  else if grow < keep + more.length then .error .bad
+  else .ok (s.alloc grow (r.bytes.take keep ++ more))
+
+/-! ### MemPool (mempool.go) -/
+
+/-- `pbuf := pool.Get(); n := cap; if n < size { append((*pbuf)[:n], make(size-n)...) }` -/
+def mpGet (g : Cfg) (s : St) (size : Nat) (c : Choice) (grow : Nat) : Except Err (St × Nat) :=
+  match poolGet s 0 g.bufSize c with
+  | .error e => .error e
+  | .ok (s, rid) =>
+    let n := (s.region rid).cap
+    if n < size then goAppend s rid n (zeros (size - n)) grow else .ok (s, rid)
+
+/-- `Free`: `cap > 0`, `cap ≤ freeSize` ⇒ `pool.Put` -/
+def mpFree (g : Cfg) (s : St) (x : Handle) (tag : Nat) : St :=
+  let cap := (s.region x.rid).cap
+  if 0 < cap ∧ cap ≤ g.freeSize then poolPut s 0 tag x.rid else s
+
+def mpMalloc (g : Cfg) (s : St) (size : Nat) (c : Choice) (grow : Nat) : Except Err (St × Handle) :=
   if size > g.freeSize then
-    let (h, rid) := h.newRegion size []
-    some (h, ⟨rid, size⟩)
-  else do
-    let (h, rid) ← poolGet g h c
-    let (h, rid) ← growTo h rid size growCap
-    pure (h, ⟨rid, size⟩)
-
-/-- Go append on a handle: in place if capacity suffices, else a new region of capacity growCap -/
-def append (h : Heap) (x : Handle) (more : Bytes) (growCap : Nat) : Option (Heap × Handle) :=
-  let r := h.region x.rid
-  let need := x.len + more.length
-  if need ≤ r.cap then
-    some (h.setBytes x.rid (r.bytes.take x.len ++ more ++ r.bytes.drop need), ⟨x.rid, need⟩)
-  else if growCap < need then none
+    .ok ((s.alloc size []).1, ⟨(s.alloc size []).2, size⟩)
   else
-    let (h, rid) := h.newRegion growCap (r.bytes.take x.len ++ more)
-    some (h, ⟨rid, need⟩)
+    match mpGet g s size c grow with
+    | .error e => .error e
+    | .ok (s, rid) => .ok (s, ⟨rid, size⟩)
 
-def free (g : Cfg) (h : Heap) (name : String) (x : Handle) : Heap :=
-  let r := h.region x.rid
-  if r.cap > 0 && r.cap ≤ g.freeSize then { h with pool := h.pool ++ [(name, x.rid)] } else h
-
-def realloc (g : Cfg) (h : Heap) (name : String) (x : Handle) (size : Nat) (c : Choice) (growCap : Nat) :
-    Option (Heap × Handle) :=
-  let r := h.region x.rid
-  if size ≤ r.cap then some (h, ⟨x.rid, size⟩)
-  else if r.cap < g.freeSize then do
-    let (h, rid) ← poolGet g h c
-    let (h, rid) ← growTo h rid size growCap
-    let old := h.read x
-    let nr := h.region rid
-    let h := h.setBytes rid (old ++ nr.bytes.drop old.length)
-    pure (free g h name x, ⟨rid, size⟩)
+def mpRealloc (g : Cfg) (s : St) (x : Handle) (size : Nat) (c : Choice) (grow tag : Nat) :
+    Except Err (St × Handle) :=
+  let r := s.region x.rid
+  if size ≤ r.cap then .ok (s, ⟨x.rid, size⟩)
+  else if r.cap < g.freeSize then
+    match mpGet g s size c grow with
+    | .error e => .error e
+    | .ok (s', rid) =>
+      -- copy(*newBufPtr, *pbuf); mp.Free(pbuf)
+      .ok (mpFree g (s'.write rid 0 (r.bytes.take x.len)) x tag, ⟨rid, size⟩)
   else
-    -- append((*pbuf)[:cap], make([]byte, size-cap)...)[:size]
-    if growCap < size then none
-    else
-      let (h, rid) := h.newRegion growCap (r.bytes ++ List.replicate (size - r.cap) 0)
-      some (h, ⟨rid, size⟩)
+    match goAppend s x.rid r.cap (zeros (size - r.cap)) grow with
+    | .error e => .error e
+    | .ok (s', rid) => .ok (s', ⟨rid, size⟩)
+
+def mpAppend (s : St) (x : Handle) (more : Bytes) (grow : Nat) : Except Err (St × Handle) :=
+  match goAppend s x.rid x.len more grow with
+  | .error e => .error e
+  | .ok (s', rid) => .ok (s', ⟨rid, x.len + more.length⟩)
+
+/-! ### AlignedAllocator (aligned_allocator.go) -/
+
+def minAligned : Nat := 32
+def maxAligned : Nat := 32768
+def nClasses : Nat := 11
+
+def classSize (i : Nat) : Nat := minAligned <<< i
+
+/-- `alignedIndexes[size]` for `size ≤ maxAligned`: the first class whose size is ≥ `size` -/
+def classOfAux (size : Nat) : Nat → Nat → Nat
+  | 0, i => i
+  | fuel + 1, i => if size ≤ classSize i then i else classOfAux size fuel (i + 1)
+def classOf (size : Nat) : Nat := classOfAux size (nClasses - 1) 0
+
+/-- `Malloc`: class pool and reslice `[:size]` (a reslice beyond the capacity panics), or `make` -/
+def alMalloc (s : St) (size : Nat) (c : Choice) : Except Err (St × Handle) :=
+  if size ≤ maxAligned then
+    match poolGet s (classOf size) (classSize (classOf size)) c with
+    | .error e => .error e
+    | .ok (s', rid) => if size ≤ (s'.region rid).cap then .ok (s', ⟨rid, size⟩) else .error .panic
+  else
+    .ok ((s.alloc size []).1, ⟨(s.alloc size []).2, size⟩)
+
+/-- `Free`: only capacities that are multiples of 32 and ≤ 32 KiB are pooled, under `alignedIndexes[cap]` -/
+def alFree (s : St) (x : Handle) (tag : Nat) : St :=
+  let cap := (s.region x.rid).cap
+  if cap % minAligned ≠ 0 ∨ cap > maxAligned then s else poolPut s (classOf cap) tag x.rid
+
+def alRealloc (s : St) (x : Handle) (size : Nat) (c : Choice) (tag : Nat) : Except Err (St × Handle) :=
+  let r := s.region x.rid
+  if size ≤ r.cap then .ok (s, ⟨x.rid, size⟩)
+  else
+    match alMalloc s size c with
+    | .error e => .error e
+    | .ok (s', y) => .ok (alFree (s'.write y.rid 0 (r.bytes.take x.len)) x tag, y)
+
+def alAppend (s : St) (x : Handle) (more : Bytes) (c : Choice) (tag : Nat) : Except Err (St × Handle) :=
+  let r := s.region x.rid
+  if more.length ≤ r.cap - x.len then .ok (s.write x.rid x.len more, ⟨x.rid, x.len + more.length⟩)
+  else
+    match alMalloc s (x.len + more.length) c with
+    | .error e => .error e
+    | .ok (s', y) =>
+      .ok (alFree ((s'.write y.rid 0 (r.bytes.take x.len)).write y.rid x.len more) x tag, y)
+
+/-! ### stdAllocator (std_allocator.go) -/
+
+def sdRealloc (s : St) (x : Handle) (size : Nat) : St × Handle :=
+  let r := s.region x.rid
+  if size ≤ r.cap then (s, ⟨x.rid, size⟩)
+  else ((s.alloc size (r.bytes.take x.len)).1, ⟨(s.alloc size (r.bytes.take x.len)).2, size⟩)
+
+/-! ### the client's operations -/
+
+inductive Op
+  | malloc  (h size : Nat) (c : Choice) (grow : Nat)
+  | write   (h off : Nat) (data : Bytes)               -- the client stores into its buffer
+  | append  (h : Nat) (more : Bytes) (c : Choice) (grow tag : Nat)
+  | realloc (h size : Nat) (c : Choice) (grow tag : Nat)
+  | free    (h tag : Nat)
+  deriving Repr
+
+def doMalloc (g : Cfg) (s : St) (size : Nat) (c : Choice) (grow : Nat) : Except Err (St × Handle) :=
+  match g.kind with
+  | .pool => mpMalloc g s size c grow
+  | .aligned => alMalloc s size c
+  | .std => .ok ((s.alloc size []).1, ⟨(s.alloc size []).2, size⟩)
+
+def doAppend (g : Cfg) (s : St) (x : Handle) (more : Bytes) (c : Choice) (grow tag : Nat) :
+    Except Err (St × Handle) :=
+  match g.kind with
+  | .pool | .std => mpAppend s x more grow
+  | .aligned => alAppend s x more c tag
+
+def doRealloc (g : Cfg) (s : St) (x : Handle) (size : Nat) (c : Choice) (grow tag : Nat) :
+    Except Err (St × Handle) :=
+  match g.kind with
+  | .pool => mpRealloc g s x size c grow tag
+  | .aligned => alRealloc s x size c tag
+  | .std => .ok (sdRealloc s x size)
+
+def doFree (g : Cfg) (s : St) (x : Handle) (tag : Nat) : St :=
+  match g.kind with
+  | .pool => mpFree g s x tag
+  | .aligned => alFree s x tag
+  | .std => s
+
+/-- one client operation; `.error .bad` = not a well-formed use (unknown or duplicate handle name,
+    store outside the buffer) or an impossible environment answer (a pool entry that is not there,
+    a growth smaller than needed) -/
+def step (g : Cfg) (s : St) : Op → Except Err St
+  | .malloc h size c grow =>
+    match s.lookup h with
+    | some _ => .error .bad
+    | none =>
+      match doMalloc g s size c grow with
+      | .error e => .error e
+      | .ok (s', x) => .ok (s'.bind h x)
+  | .write h off data =>
+    match s.lookup h with
+    | none => .error .bad
+    | some x => if off + data.length ≤ x.len then .ok (s.write x.rid off data) else .error .bad
+  | .append h more c grow tag =>
+    match s.lookup h with
+    | none => .error .bad
+    | some x =>
+      match doAppend g s x more c grow tag with
+      | .error e => .error e
+      | .ok (s', y) => .ok (s'.bind h y)
+  | .realloc h size c grow tag =>
+    match s.lookup h with
+    | none => .error .bad
+    | some x =>
+      match doRealloc g s x size c grow tag with
+      | .error e => .error e
+      | .ok (s', y) => .ok (s'.bind h y)
+  | .free h tag =>
+    match s.lookup h with
+    | none => .error .bad
+    | some x => .ok ((doFree g s x tag).remove h)
+
+/-- a program; operations the model rejects are skipped -/
+def run (g : Cfg) : St → List Op → St
+  | s, [] => s
+  | s, o :: os => match step g s o with
+    | .ok s' => run g s' os
+    | .error _ => run g s os
 
 end Alloc
